@@ -143,6 +143,7 @@ static void do_acts(ActC *acts, int n) {
         case 'S': skip_test(); break;
         case 'A': atexit(late_failure); break;
         case 'L': late_n = acts[i].arg; atexit(late_many); break;
+        case 'N': send_reporter_exception_notification(get_test_reporter()); break;      /* what a C++ test body that throws makes cgreen send, after which the test completes */
         case 'H': {          /* a helper process of the test's own (a server it talks to ...): it lives as long as the test's process does */
             pid_t parent = getpid();
             if (fork() == 0) { for (int i = 0; i < 3000 && getppid() == parent; i++) usleep(20000); _exit(0); }
@@ -222,6 +223,7 @@ static int parse_acts(char *s, ActC **out) {
         else if (!strcmp(tok, "S")) a.kind = 'S';
         else if (!strcmp(tok, "AX")) a.kind = 'A';
         else if (tok[0] == 'A' && tok[1] == 'L') { a.kind = 'L'; a.arg = atoi(tok + 2); }
+        else if (!strcmp(tok, "XN")) a.kind = 'N';
         else if (!strcmp(tok, "IA")) a.kind = 'I';
         else if (!strcmp(tok, "IP")) { a.kind = 'I'; a.arg = 1; }      /* code under test that ignores SIGPIPE, as network code does */
         else if (!strcmp(tok, "HP")) a.kind = 'H';
